@@ -30,9 +30,10 @@ ANCHORS = ["dagrt.language:ExecutionController.update_plan", "dagrt.language:Exe
            "dagrt.exec_numpy:NumpyInterpreter.run_single_step"]
 MIN_NONTRIVIAL = {"quick": 10000, "thorough": 1050000}
 REQUIRED_COUNTERS = {"quick": ["steps_controller", "steps_interpreter", "visits_checked", "dynamic_requests",
-                               "hook_state_checks"],
+                               "hook_state_checks", "live_guard_contract_evaluations", "live_guard_effects_checked"],
                      "thorough": ["steps_controller", "steps_interpreter", "visits_checked", "dynamic_requests",
-                                  "hook_state_checks"]}
+                                  "hook_state_checks", "live_guard_contract_evaluations",
+                                  "live_guard_effects_checked"]}
 SHARD_TIMEOUT = {"quick": 900, "thorough": 3000}
 
 
@@ -426,6 +427,122 @@ def check_e2e(case, rec, hang_s=30.0):
 # }}}
 
 
+# {{{ guards that read what guarded statements write (guard value at the moment of the visit)
+
+GUARD_SHAPES = [["cmp", "<", ["var", "n"], ["num", 1]], ["cmp", "<", ["var", "n"], ["num", 2]],
+                ["cmp", ">=", ["var", "n"], ["num", 2]], ["cmp", "<", ["var", "m"], ["num", 1]],
+                ["and", ["cmp", "<", ["var", "n"], ["num", 3]], ["cmp", "<", ["var", "m"], ["num", 2]]],
+                ["not", ["cmp", "<", ["var", "n"], ["num", 1]]]]
+
+
+def gen_e2e_live(rng):
+    g = rand_graph(rng, rng.randint(2, 8))
+    ids = g["ids"]
+    if rng.random() < 0.5:
+        # a chain: consecutive statements are visited back to back
+        g = {"ids": ids, "deps": {x: ([ids[i - 1]] if i else []) for i, x in enumerate(ids)}}
+    shapes = rng.sample(range(len(GUARD_SHAPES)), rng.randint(1, 2))      # few distinct guards: many equal ones
+    guard_of = {x: rng.choice(shapes) for x in ids if rng.random() < 0.75}
+    effect = {x: rng.choice(["n", "n", "m", "rec"]) for x in ids}
+    return {"live": True, "graph": g, "guard_of": guard_of, "effect": effect,
+            "n0": rng.choice([0, 0, 1]), "m0": rng.choice([0, 1]), "nsteps": rng.randint(1, 3)}
+
+
+def check_e2e_live(case, rec, hang_s=30.0):
+    """Contract on the real NumpyInterpreter.evaluate_condition: what it answers is the value the statement's guard
+    has in the interpreter's store at that moment; and a statement takes effect only then."""
+    import icontract
+    from dagrt.exec_numpy import NumpyInterpreter
+    from dagrt.language import AssignFunctionCall, DAGCode, ExecutionPhase
+    from pymbolic import var
+    from vf.sexpr import Env, ev, from_pym, to_pym
+    g = case["graph"]
+    ids = g["ids"]
+    stmts = [AssignFunctionCall(("n",), "<func>init", (0,), id="init_n"),
+             AssignFunctionCall(("m",), "<func>init", (1,), id="init_m")]
+    conds = {}
+    for x in ids:
+        deps = set(g["deps"][x]) | {"init_n", "init_m"}
+        cond = to_pym(GUARD_SHAPES[case["guard_of"][x]]) if x in case["guard_of"] else True
+        conds[x] = cond
+        tgt = case["effect"][x]
+        i = ids.index(x)
+        if tgt == "rec":
+            stmts.append(AssignFunctionCall(("w_" + x,), "<func>rec", (i,), id=x, depends_on=frozenset(deps),
+                                            condition=cond))
+        else:
+            stmts.append(AssignFunctionCall((tgt,), "<func>bump", (var(tgt), i), id=x,
+                                            depends_on=frozenset(deps), condition=cond))
+    dag = DAGCode({"main": ExecutionPhase("main", "main", frozenset(stmts))}, "main")
+    problems = []
+    holder = {}
+
+    def own_guard(cond):
+        if cond is True:
+            return True
+        ctx = holder["interp"].context
+        return bool(ev(from_pym(cond), Env({k: ctx[k] for k in ("n", "m") if k in ctx}, {})))
+
+    def f_init(j):
+        return case["n0"] if int(j) == 0 else case["m0"]
+
+    def effect(i):
+        x = ids[int(i)]
+        rec.count("live_guard_effects_checked")
+        if not own_guard(conds[x]):
+            problems.append(("guard-false-statement-took-effect",
+                             f"{x} (guard {conds[x]}) ran with n={holder['interp'].context.get('n')}, "
+                             f"m={holder['interp'].context.get('m')}"))
+
+    def f_bump(v, i):
+        effect(i)
+        return v + 1
+
+    def f_rec(i):
+        effect(i)
+        return 1.0
+
+    class GuardBroken(Exception):
+        pass
+
+    def answers_current_guard_value(self, stmt, result):
+        rec.count("live_guard_contract_evaluations")
+        cond = getattr(stmt, "condition", True)
+        try:
+            want = own_guard(cond)
+        except Exception:
+            rec.count("live_guard_not_evaluable_by_the_oracle")
+            return True
+        if bool(result) != want:
+            problems.append(("evaluate-condition-differs-from-current-guard-value",
+                             f"[{stmt.id}] guard {cond} is {want} in the store (n={self.context.get('n')}, "
+                             f"m={self.context.get('m')}) but evaluate_condition answered {result}"))
+        return True
+    orig = NumpyInterpreter.evaluate_condition
+    NumpyInterpreter.evaluate_condition = icontract.ensure(answers_current_guard_value, error=GuardBroken)(orig)
+    try:
+        interp = NumpyInterpreter(dag, {"<func>init": f_init, "<func>bump": f_bump, "<func>rec": f_rec})
+        holder["interp"] = interp
+        interp.set_up(0.0, 1.0, {})
+        try:
+            with case_alarm(hang_s):
+                for _ in islice(interp.run(max_steps=case["nsteps"]), 40):
+                    pass
+        except CaseTimeout:
+            rec.violation("interpreter-hang", "run() did not produce events", case)
+            return
+        except Exception as ex:
+            rec.violation(f"interpreter-exception-{type(ex).__name__}", f"{type(ex).__name__}: {ex}", case)
+            return
+    finally:
+        NumpyInterpreter.evaluate_condition = orig
+    rec.count("steps_interpreter_live_guards", case["nsteps"])
+    if problems:
+        rec.violation(problems[0][0], problems[0][1], case)
+
+# }}}
+
+
 def all_small_dags(maxn):
     for n in range(1, maxn + 1):
         ids = ["n%d" % i for i in range(n)]
@@ -472,15 +589,17 @@ def run_shard(shard, rec):
         rec.cmax("max_exhaustive_nodes", shard["maxn"])
     else:
         rng = random.Random(shard["seed"])
-        for _ in range(shard["count"]):
-            case = gen_e2e(rng)
-            check_e2e(case, rec)
+        for i in range(shard["count"]):
+            case = gen_e2e(rng) if i % 3 else gen_e2e_live(rng)
+            (check_e2e_live if case.get("live") else check_e2e)(case, rec)
             ne = sum(len(v) for v in case["graph"]["deps"].values())
             rec.case(case, nontrivial=ne >= 1)
 
 
 def replay(witness, rec):
-    if "sched" in witness:
+    if witness.get("live"):
+        check_e2e_live(witness, rec)
+    elif "sched" in witness:
         check_e2e(witness, rec)
     else:
         annotate_plan_before(witness)
